@@ -105,13 +105,13 @@ CLAIMED = {
     note='Trusted: clang, ll2c, CBMC; kernels are replaced by recording stubs generated from vnaconv.h (their numeric content is C04); the oracle table is derived from function names and vnadata(3).',
     design='DESIGN.md section 4 / C05'),
  'C07': dict(
-    technique='bounded symbolic model checking of the real number formatting of vnacal_save.c: clang-14 IR -> ll2c -> CBMC 6.11, printf family replaced by its C11 length contract',
-    text='Bounded proof with CBMC that add_double / add_complex of vnacal_save.c never write beyond their buffer for EVERY precision the setters accept '
-         '(1..VNACAL_MAX_PRECISION, symbolic) and every value, using the C11 maximum output length of %.*e / %+.*e / %+a as the contract of the printf family. '
-         'Only this clause of C07 is claimed: the structural save->load round trip through the YAML document object and libyaml itself are outside.',
-    note='Trusted: clang, ll2c, CBMC, the length-contract stubs in harness/C07_format.c. NOT covered: term placement through save/load (C07.b of the design was not built), '
-         'libyaml emitter/parser, digit exactness, legacy versions.',
-    design='DESIGN.md section 4 / C07'),
+    technique='(a) CBMC 6.11 on the real number formatting of vnacal_save.c (printf family replaced by its C11 length contract); (b) whole-flow symbolic execution of the real vnacal_new_* .. vnacal_save .. vnacal_load (clang-14 IR -> vf/irx.py) with symbolic error terms and a document-API model of libyaml (vf/yamlmodel.py), z3 deciding equality of every loaded error term; counterexamples replayed natively (clang ASan/UBSan)',
+    text='Bounded proof: (C07.a, CBMC) add_double / add_complex of vnacal_save.c never write beyond (or truncate in) their buffer for EVERY accepted precision (1..VNACAL_MAX_PRECISION, symbolic) and every value.  (C07.b, irx + z3) for vnacal_t objects holding 1..3 '
+         'calibrations of all 8 types (1x1..2x2; 3x3 in thorough) built by the real vnacal_new flow with every error term a free complex symbol, 1..3 frequencies, default / 4-digit / maximum precision, global and per-calibration property trees (present and absent): '
+         'vnacal_save followed by vnacal_load gives the same number and order of calibrations and per calibration the same name, type, dimensions, frequencies (bit-exact at maximum precision), z0, EVERY error term (z3: equal for all values), the same property trees '
+         '(kinds, keys in order, list order, nulls, scalar bytes); saving the loaded object writes the same document; nothing stays allocated (libyaml objects included).  libyaml itself is modelled as the identity on documents; digits of symbolic numbers are placeholders.',
+    note='Trusted: clang, ll2c, CBMC, the length-contract stubs (a); clang, vf/irx.py, vf/yamlmodel.py, z3 (b).  NOT covered: the libyaml emitter / parser binary, digit exactness of printf / strtod, legacy file versions, parameters stored with a calibration.',
+    design='DESIGN.md section 3 / C07', cmd='python3-vt ./check C07'),
  'C11': dict(
     technique='bounded symbolic model checking with CBMC 6.11 of _vnaerr_verror (all categories/errno/callback/vasprintf outcomes symbolic) plus the refused=>unchanged / callback-count / index-honoured assertions of the vnadata, convert, slot-table and range harnesses',
     text='Bounded proof with CBMC: (C11.a) for every category, incoming errno, callback presence and vasprintf outcome, _vnaerr_verror leaves the documented errno and calls the error '
@@ -163,7 +163,7 @@ CLAIMED = {
 }
 
 NA_REASONS = {
- 'C14': 'most of the property is behaviour of the emitter and parser of libyaml, a binary without source in this image (not encodable); see DESIGN.md section 6',
+ 'C14': 'the property is about strings passing through the emitter and parser of libyaml, a binary without source in this image: nothing of it can be encoded for a solver, and the libvna side (export / import of the document object) has no symbolic content to decide - a concrete-execution check exists (props/C14.py over the document-API model vf/yamlmodel.py) but is not a solver verdict and is therefore not claimed; the same libvna code paths (_vnaproperty_yaml_export / _import, properties embedded in calibration files) are exercised by the registered C07.b round trip; see DESIGN.md section 6',
 }
 NOT_APPLICABLE = {}
 for i in range(1, 21):
